@@ -217,14 +217,15 @@ def impl(case):
             out = {"accepted": True, "popsize": int(popsize), "haplotypes": len(bps), "tiles": all(_tiles(h, case) for h in bps)}
         except Exception as e:
             reason = None
-            if type(e) is Exception:
+            if C.deliberate_raise(e):
                 for pat, r in MSG2REASON:
                     if re.search(pat, str(e)):
                         reason = r
                         break
-            late = type(e) is Exception and bool(re.search(r"No available sample", str(e)))
-            out = {"accepted": False, "reason": reason, "exc": type(e).__name__, "msg": str(e)[:120], "late_no_sample": late}
+            out = {"accepted": False, "reason": reason, "exc": type(e).__name__, "msg": str(e)[:120], "deliberate": C.deliberate_raise(e)}
     out["draws_before_outcome"] = sum(1 for e in rp.log if e[0] != "seed")
+    # a --no_replacement run that the simulator itself calls off after it has begun: the panel ran out (C14's topic)
+    out["late_no_sample"] = bool(not out.get("accepted") and out.get("deliberate") and case["no_repl"] and out["draws_before_outcome"] > 0)
     return out
 
 
@@ -307,14 +308,15 @@ def impl_cli(case):
     else:
         e = r.exception
         reason = None
-        if type(e) is Exception:
+        if e is not None and C.deliberate_raise(e):
             for pat, rs in MSG2REASON:
                 if re.search(pat, str(e)):
                     reason = rs
                     break
-        late = type(e) is Exception and bool(re.search(r"No available sample", str(e)))
-        out = {"accepted": False, "reason": reason, "exc": type(e).__name__, "msg": str(e)[:120], "late_no_sample": late}
-    out["draws_before_outcome"] = sum(1 for e in rp.log if e[0] != "seed") if not out["accepted"] else 0
+        out = {"accepted": False, "reason": reason, "exc": type(e).__name__, "msg": str(e)[:120], "deliberate": e is not None and C.deliberate_raise(e)}
+    draws = sum(1 for e in rp.log if e[0] != "seed")
+    out["late_no_sample"] = bool(not out["accepted"] and out.get("deliberate") and case["no_repl"] and draws > 0)
+    out["draws_before_outcome"] = draws if not out["accepted"] else 0
     out["glue"] = "; ".join(glue) or None
     return out
 
@@ -393,7 +395,7 @@ def equal(a, b):
         return bool(a.get("late_no_sample")) and b["accepted"]
     if a["accepted"]:
         return a["popsize"] == b["popsize"]
-    if a["reason"] is None and a.get("exc") == "Exception" and a.get("msg"):
+    if a["reason"] is None and a.get("deliberate") and a.get("msg"):
         return True  # refused with an explanation in a wording the harness does not know: which requirement it names is not compared
     return a["reason"] == b["reason"]
 
@@ -419,8 +421,8 @@ def oracle(case, obs):
         return f"input violating requirement '{v}' was accepted and simulated"
     if obs["draws_before_outcome"] > 0:
         return f"input violating '{v}' was only refused after the simulation had begun ({obs['draws_before_outcome']} random draws had been made) ({obs['exc']}: {obs['msg']})"
-    if obs["exc"] != "Exception" or not obs["msg"]:
-        return f"input violating '{v}' failed with {obs['exc']}: {obs['msg']!r} instead of an explanatory error"
+    if not obs.get("deliberate") or not obs["msg"]:
+        return f"input violating '{v}' failed with {obs['exc']}: {obs['msg']!r} (an accident below the validation, not a refusal worded by simgenotype) instead of an explanatory error"
     return None
 
 
